@@ -219,7 +219,7 @@ def cmp_c01y(case, i, m):
     if m.get("outcome") == "unsupported":
         return False
     r = cmp_c01(case, i, m)
-    if r and r is not True and not r[0].startswith("~") and case["stream"] in ("tt", "graphcount", "scopes"):
+    if r and r is not True and not r[0].startswith("~"):
         return r
     if r and r is not True:
         return ("~front-end", "front-end model on the YAML tree: " + r[1])
@@ -1245,7 +1245,9 @@ def check_C05(ctx):
                     desc = ("index", f"serialisation `{d['form']}` normalises to a different index than the flat document for the same graph")
                 elif not dm.get("skipped"):
                     frag += 1
-                    if dm.get("outcome") != "ok":
+                    if dm.get("outcome") != "ok" and not d.get("fragment", True):
+                        frag -= 1    # a form the model does not cover (e.g. @included): verdict and index equality with the flat form only
+                    elif dm.get("outcome") != "ok":
                         desc = ("model-outside-fragment", f"normalisation model rejects a `{d['form']}` document of the fragment: {dm.get('outcome')}")
                     elif dm["index"] != di["index"]:
                         desc = ("model-vs-real", f"normalisation model and real Index(Normalize(.)) differ on a `{d['form']}` document")
